@@ -138,16 +138,22 @@ def check(rep, tier, seed):
     rb = ctx.one("hyper_client::read_response_body") + "::{closure#0}"
     eng = ctx.engine(loop_bound=1, max_paths=20000)
     producer = None
+    piece_closure = None      # the closure that decodes one piece: wherever the code lives (the loop body or a helper it calls)
     for r in eng.explore(rb):
         for e in r.events:
             if e.kind == "call" and re.search(r"slice::<impl \[u8\]>::(chunks|chunks_exact)$|\[u8\]>::(chunks|chunks_exact)$|::(chunks|chunks_exact)$", e.callee):
                 n_ = e.rargs[1]
                 producer = (e.callee.split("::")[-1], z3.simplify(n_.e).as_long() if isinstance(n_, Scalar) and z3.is_bv_value(z3.simplify(n_.e)) else None)
+                for m_ in r.events:
+                    if m_.kind == "call" and re.search(r"Iterator>::map$|::map$", m_.callee) and len(m_.rargs) == 2 and same_origin(m_.rargs[0], e.ret):
+                        cl = m_.rargs[1]
+                        if isinstance(cl, Agg) and cl.kind == "closure" and cl.body_path:
+                            piece_closure = cl.body_path
     rep.functions_encoded.append(rb)
     eng_b = ctx.engine(loop_bound=1, max_paths=20000)
     body_paths = eng_b.explore(rb)
     results["utf16body"] = (body_paths, [r for r in body_paths if r.status == "panic" and "unwrap" not in r.note])
-    clo = [p for p in ctx.idx.files if p.startswith(rb + "::{closure")]
+    clo = [piece_closure] if piece_closure else [p for p in ctx.idx.files if p.startswith(rb + "::{closure")]
     if producer and producer[1] and clo:
         kind, n_ = producer
 
